@@ -433,11 +433,10 @@ func keyExchange(klen int, ida, idb []byte, pri *PrivateKey, pub *PublicKey, rpr
 	}
 	// every coordinate enters the hashes as a 32-byte string
 	vxBuf, vyBuf := padTo32(vx), padTo32(vy)
-	k, ok := kdf(klen, vxBuf, vyBuf, za, zb)
-	if !ok {
-		err = errors.New("kdf: zero key")
-		return
-	}
+	// GM/T 0003.3 derives the key with KDF(xV || yV || ZA || ZB, klen) and, unlike
+	// the encryption scheme, has no "all zero" retry or failure step: for short
+	// keys (klen = 1: once in 256 exchanges) an all-zero key is a valid outcome.
+	k, _ = kdf(klen, vxBuf, vyBuf, za, zb)
 	// (x1, y1) is the initiator's ephemeral point RA, (x2, y2) the responder's RB
 	h1 := BytesCombine(vxBuf, za, zb, padTo32(rpri.X), padTo32(rpri.Y), padTo32(rpub.X), padTo32(rpub.Y))
 	if !thisISA {
